@@ -288,6 +288,20 @@ func checkC08(e *RunEnv) *CheckResult {
 						steps = append(steps, Write(d+"/never-tracked", "never tracked\n"))
 					}
 				}
+				// a file that some commit contains, that is on disk but not tracked right now (left behind by an earlier
+				// reset to a commit without it), edited: a later reset --hard to a commit with it must restore the bytes
+				for _, id := range commitPool(a) {
+					if snap, err := a.Snapshot(id); err == nil {
+						for p := range snap {
+							if _, tracked := I[p]; tracked {
+								continue
+							}
+							if d, onDisk := a.W[p]; onDisk && string(d) != "scribble\n" {
+								steps = append(steps, Write(p, "scribble\n"))
+							}
+						}
+					}
+				}
 				if _, ok := a.W["u"]; !ok {
 					steps = append(steps, Write("u", "untracked\n"), Write("a.tmp", "a never-tracked file next to a\n"))
 				}
